@@ -54,7 +54,8 @@ NESTED = {
 }
 
 OPS = ['construct', 'parse', 'deepcopy', 'new_version', 'revoke', 'marking', 'bundle', 'factory', 'store_add', 'store_read',
-       'save_load', 'setattr', 'register', 'serialize', 'remove_custom', 'dedup', 'env', 'bad_construct']
+       'save_load', 'setattr', 'register', 'serialize', 'remove_custom', 'dedup', 'env', 'bad_construct', 'filters', 'marking_utils',
+       'composite']
 
 
 class C13(Profile):
@@ -543,6 +544,83 @@ class C13(Profile):
         lst = [vs[(op['a'] + i) % len(vs)] for i in range(4)]
         self.keep(lst)
         self.monitored('deduplicate', self.s.utils.deduplicate, lst)
+
+    def op_filters(self, op):
+        """Filter / FilterSet / apply_common_filters with caller-owned lists and dict values."""
+        s = self.s
+        from stix2.datastore.filters import FilterSet, apply_common_filters
+        vals = ['malware', 'identity', 'x-unreg-thing']
+        self.keep(vals)
+        f1 = self.monitored('filter_ctor', s.Filter, 'type', 'in', vals)
+        dv = {'source_name': 'capec', 'external_id': 'CAPEC-163'}
+        self.keep(dv)
+        f2 = self.monitored('filter_ctor', s.Filter, 'external_references', 'contains', dv)
+        fl = [x.value for x in (f1, f2) if x.ok]
+        self.keep(fl)
+        fs = self.monitored('filterset_ctor', FilterSet, fl)
+        if fs.ok:
+            more = [s.Filter('id', '!=', C.IDENT)]
+            self.keep(more)
+            self.monitored('filterset_add', fs.value.add, more)
+            self.monitored('filterset_remove', fs.value.remove, more)
+        objs = [v for v in self.pool if (self.is_obj(v) or isinstance(v, dict)) and 'type' in v][:6]
+        self.keep(objs)
+        self.monitored('apply_common_filters', lambda o, q: list(apply_common_filters(o, q)), objs, fl)
+
+    def op_marking_utils(self, op):
+        """The marking helper functions called directly with caller-owned granular-marking lists."""
+        from stix2.markings import utils as mu
+        gms = [{'marking_ref': C.TLP['green'], 'selectors': ['description']},
+               {'marking_ref': C.TLP['green'], 'selectors': ['name', 'labels']},
+               {'lang': 'en', 'selectors': ['name']}]
+        if op['flag']:
+            gms = gms[:1]
+        self.keep(gms)
+        e = self.monitored('expand_markings', mu.expand_markings, gms)
+        if e.ok:
+            self.keep(e.value)
+            self.monitored('compress_markings', mu.compress_markings, e.value)
+        self.monitored('compress_markings', mu.compress_markings, gms)
+        self.monitored('build_granular_marking', mu.build_granular_marking, gms)
+        subj = self.pick(op['a'], lambda v: isinstance(v, dict) and 'type' in v and 'modified' in v)
+        if subj is not None:
+            # a plain-dict subject whose own single-selector granular marking is cleared / set / removed
+            d = json.loads(json.dumps(U.to_json(subj)))
+            d['granular_markings'] = [{'marking_ref': C.TLP['green'], 'selectors': ['type']},
+                                      {'marking_ref': C.TLP['amber'], 'selectors': ['id', 'created']}]
+            self.keep(d)
+            self.world.clock.set(1900000000000000 + op['n'] * 1000)
+            M = self.s.markings
+            which = op['c'] % 4
+            if which == 0:
+                self.monitored('clear_markings', M.clear_markings, d, ['type'])
+            elif which == 1:
+                self.monitored('set_markings', M.set_markings, d, C.TLP['red'], ['type'])
+            elif which == 2:
+                self.monitored('remove_markings', M.remove_markings, d, C.TLP['green'], ['type'])
+            else:
+                self.monitored('add_markings', M.add_markings, d, C.TLP['red'], ['type', 'id'])
+
+    def op_composite(self, op):
+        s = self.s
+        srcs = [self.sw.M.source, self.sw.F.source]
+        self.keep(srcs)
+        cds = s.CompositeDataSource()
+        self.monitored('add_data_sources', cds.add_data_sources, srcs)
+        flt = [s.Filter('type', '!=', 'bundle')]
+        self.keep(flt)
+        self.monitored('composite_filters_add', cds.filters.add, flt)
+        q = [s.Filter('type', '!=', 'x-nothing')]
+        self.keep(q)
+        self.sw.disk.begin_op(op.get('ls_key', 0))
+        out = self.monitored('composite_query', cds.query, q)
+        ids = sorted(x for x in getattr(self, 'stored_ids', set()) if x)
+        if ids:
+            self.monitored('composite_get', cds.get, ids[op['a'] % len(ids)])
+            self.monitored('composite_all_versions', cds.all_versions, ids[op['a'] % len(ids)])
+        self.sw.disk.end_op()
+        if len(cds.filters) != 1 or len(flt) != 1 or len(q) != 1:
+            raise Violation('arguments-unchanged', 'C13.composite-filter-set-grew', dict(attached=len(cds.filters), query=len(q)))
 
     def op_env(self, op):
         s = self.s
